@@ -22,6 +22,8 @@ inductive PyExc where
   | recursion
   /-- RuntimeError, e.g. "dictionary changed size during iteration" -/
   | runtimeError (msg : String)
+  /-- TypeError (unhashable element, iteration over / `in` on a value that is not iterable, subscript of None) -/
+  | typeError (msg : String)
   deriving DecidableEq, Repr
 
 abbrev PSet := List Nat
